@@ -30,6 +30,9 @@ def main(argv=None):
         seed = int(os.environ.get("VERIF_SEED", "1"))
     except ValueError:
         seed = 1
+    import warnings
+
+    warnings.simplefilter("ignore")
     guard_import()
     from . import run
 
